@@ -60,9 +60,25 @@ def observe():
     return tbl, names, obs, lt, tps
 
 
-def python_property_search(tbl, names, obs, lt):
+def conv(a, b):
+    out = [0] * (len(a) + len(b) - 1)
+    for i, x in enumerate(a):
+        for j, y in enumerate(b):
+            out[i + j] += x * y
+    return out
+
+
+def python_property_search(tbl, names, obs, lt, tps=()):
     """Search for a concrete cell violating the property on the real accessors."""
     import ufl.cell as uc
+    for combo, td, nums in tps:
+        f = [1]
+        for n in combo:
+            f = conv(f, [len(l) for l in tbl[n]])
+        for d, got in enumerate(nums[:td + 1]):
+            if got is not None and got != f[d]:
+                return {"tensor_product_cell": list(combo), "fails": f"num_sub_entities({d}) = {got}, the product "
+                        f"polytope has {f[d]} entities of dimension {d} (f-vector {f})"}
     for n in names:
         c = uc.Cell(n)
         td = c.topological_dimension
@@ -164,7 +180,7 @@ def main(run):
     run.extra["exhaustive"] = True
     broken = (not res.ok) or (not hand.ok) or (not ok_neg)
     if broken:
-        w = python_property_search(tbl, names, obs, lt)
+        w = python_property_search(tbl, names, obs, lt, tps)
         rep = {"broken_obligation": res.failing_lemma() if not res.ok else ("negative dimension accessors" if not ok_neg else "C26_model"),
                "coq_message": (res.err or hand.err or "")[-600:], "reproduce": "bin/check C26"}
         if w:
